@@ -178,7 +178,13 @@ fn check_reopen(t: T) -> Check {
 }
 
 fn anchors() -> Vec<i128> {
-    vec![min_ns(), 0, max_ns()]
+    // the ends of the representable range, the Unix epoch, and every point
+    // where an intermediate quantity of a conversion reaches a 64-bit limit:
+    // +-u64::MAX ticks from the Unix epoch (the delta saturates there), and
+    // +-(u64::MAX / 10^7) seconds (the seconds-to-ticks product saturates)
+    let delta_max = u64::MAX as i128 * 100;
+    let secs_max = (u64::MAX / 10_000_000) as i128 * NS;
+    vec![min_ns(), 0, max_ns(), delta_max, -delta_max, secs_max, secs_max + NS, -secs_max, -secs_max - NS]
 }
 
 fn time_strategy() -> impl Strategy<Value = T> {
@@ -188,9 +194,9 @@ fn time_strategy() -> impl Strategy<Value = T> {
         // uniform inside the representable range
         4 => (0u64..=u64::MAX, 0u32..100).prop_map(move |(tick, sub)| T::from_ns(lo + tick as i128 * 100 + sub as i128).unwrap()),
         // log-uniform distance from each anchor, both sides
-        4 => (0usize..3, 0u32..63, any::<u64>(), any::<bool>()).prop_map(move |(a, bits, r, neg)| {
+        4 => (0usize..9, 0u32..63, any::<u64>(), any::<bool>()).prop_map(move |(a, bits, r, neg)| {
             let mag = (r >> (63 - bits)) as i128;
-            let base = [lo, 0, hi][a];
+            let base = anchors()[a];
             T::from_ns(if neg { base - mag } else { base + mag }).unwrap()
         }),
         // ordinary dates 1900..2100
